@@ -249,7 +249,9 @@ func c01Check(c C01Case, cx *h.Ctx) *h.Failure {
 	}
 	anyNonEmpty := false
 	for _, op := range c01Ops {
-		res, err := op.run(A, B)
+		var res geom.Geometry
+		var err error
+		h.Lib(op.name, func() { res, err = op.run(A, B) })
 		if !strict {
 			continue // weak contract only: no panic (checked by the harness); error or geometry
 		}
